@@ -401,6 +401,44 @@ func c10Child(args []string) error {
 			}(g)
 		}
 		wg.Wait()
+		// a shape that keeps state across Evaluate calls (a cache) is also driven through its growth:
+		// more than 2^20 distinct points, evaluated concurrently (quick tier: one such shape)
+		if o.Mutating && (tier() == "thorough" || name == "Cache2D(Circle2D)") {
+			const side = 1100
+			bb := ref.BoundingBox()
+			c, sz := bb.Center(), bb.Size()
+			pt := func(i int) v2.Vec {
+				return v2.Vec{X: c.X + sz.X*(float64(i%side)/side-0.5)*1.3, Y: c.Y + sz.Y*(float64(i/side)/side-0.5)*1.3}
+			}
+			total := side * side
+			big, _ := sc.mk2()
+			var wg2 sync.WaitGroup
+			for g := 0; g < G; g++ {
+				wg2.Add(1)
+				go func(g int) {
+					defer wg2.Done()
+					bad := 0
+					for i := g; i < total; i += G {
+						p := pt(i)
+						v := big.Evaluate(p)
+						if i%97 == 0 {
+							// spot-check against the reference instance (sequentially consistent per point)
+							mu.Lock()
+							w := ref.Evaluate(p)
+							mu.Unlock()
+							if v != w {
+								bad++
+							}
+						}
+					}
+					mu.Lock()
+					o.Mismatch += bad
+					o.Evals += total / G
+					mu.Unlock()
+				}(g)
+			}
+			wg2.Wait()
+		}
 	} else {
 		o.Dim = 3
 		ref, err := sc.mk3()
